@@ -392,6 +392,24 @@ pub fn run_c07(tier: &str, seed: u64, model: &Model, corpus_lines: Vec<String>, 
         let c = CntCase { recs, k, threads: 16, mem: 6.0, acgt: false, sched: "free".into() };
         run_one(&c, "contention", &mut rep, &mut traces, &mut branching, &mut layouts);
     }
+    // (4) scale: multiplicities beyond 16 bits (one k-mer seen > 65536 times, within one record and across records) and more
+    // than 2^16 records — narrow counters, block-wise readers, per-record budget arithmetic
+    {
+        let a = rng.range(66_000, 70_000) as usize;
+        let mut recs: Vec<Vec<u8>> = vec![vec![*rng.pick(b"ACGTacgt"); a]];
+        for _ in 0..3 {
+            recs.push(vec![b'A'; rng.range(20_000, 30_000) as usize]);
+            recs.push(gen::clean_seq(&mut rng, 50, gen::Flavor::Uniform));
+        }
+        for (threads, mem) in [(4usize, 6.0), (3, 8e-9 * 30_000.0)] {
+            let c = CntCase { recs: recs.clone(), k: *rng.pick(&[1usize, 3, 4]), threads, mem, acgt: false, sched: "free".into() };
+            run_one(&c, "scale", &mut rep, &mut traces, &mut branching, &mut layouts);
+        }
+        let n = rng.range(66_000, 68_000) as usize;
+        let recs: Vec<Vec<u8>> = (0..n).map(|i| gen::clean_seq(&mut rng, 2 + i % 5, gen::Flavor::Uniform)).collect();
+        let c = CntCase { recs, k: 2, threads: 8, mem: 6.0, acgt: false, sched: "free".into() };
+        run_one(&c, "scale", &mut rep, &mut traces, &mut branching, &mut layouts);
+    }
     rep.traces_validated = traces;
     rep.schedules_enumerated = n_sched;
     rep
